@@ -286,7 +286,7 @@ def gen_turnconsts():
                     r"extended\.push\(StunAttribute::Realm\(info\.realm\.clone\(\)\)\);\s*"
                     r"extended\.push\(StunAttribute::Nonce\(info\.nonce\.clone\(\)\)\);\s*"
                     r"let\s+msg\s*=\s*StunMessage::allocate_request\(tx_id,\s*extended\);", al)
-    key = re.search(r"let\s+key\s*=\s*long_term_key\(&creds\.username,\s*&info\.realm,\s*&creds\.password\);", al)
+    key = "long_term_key(&creds.username, &info.realm, &creds.password)" in al
     enc = re.search(r"message\.encode\(key_option\.as_deref\(\),\s*true\)", al)
     if not (base and ext and key and enc):
         raise Untranslatable("TurnClient::allocate: request shape changed")
@@ -315,6 +315,58 @@ def gen_turnconsts():
     if "StunAttribute::Software(name.to_string())" not in br or "class: StunClass::Request" not in br or "method: StunMethod::Binding" not in br:
         raise Untranslatable("StunMessage::binding_request: shape changed")
     m.raw("Definition PROBE_SOFTWARE : list Z := %s." % _bytes(sw.group(1)), "probe_stun SOFTWARE", ICE)
+    # ---- allocate retry bound, channel numbers, request builders, framing
+    att = re.search(r"attempt\s*\+=\s*1;\s*if\s+attempt\s*>\s*(\d+)\s*\{\s*bail!", al)
+    if not att:
+        raise Untranslatable("TurnClient::allocate: attempt bound not found")
+    if not re.search(r"nonce_info\s*=\s*Some\(TurnNonce\s*\{\s*realm,\s*nonce\s*\}\);\s*continue;", al):
+        raise Untranslatable("TurnClient::allocate: challenge handling changed")
+    if "long_term_key(&creds.username, &info.realm, &creds.password)" not in al:
+        raise Untranslatable("TurnClient::allocate: long_term_key call changed")
+    m.raw("Definition ALLOC_MAX_ATTEMPTS : Z := %s." % att.group(1), "TurnClient::allocate attempt bound", TURN)
+    _, _, cn = find_fn(src, "connect", "TurnClient")
+    first = re.search(r"next_channel:\s*Mutex::new\((0x[0-9A-Fa-f]+)\)", cn)
+    _, _, cbp = find_fn(src, "create_channel_bind_packet", "TurnClient")
+    step = re.search(r"let\s+n\s*=\s*\*next;\s*if\s+n\s*>=\s*(0x[0-9A-Fa-f]+)\s*\{\s*\*next\s*=\s*(0x[0-9A-Fa-f]+);\s*\}\s*else\s*\{\s*\*next\s*\+=\s*1;\s*\}\s*n\s*\}", cbp)
+    if not first or not step:
+        raise Untranslatable("channel number allocation changed")
+    m.raw("Definition CHANNEL_FIRST : Z := %d.\nDefinition CHANNEL_WRAP_AT : Z := %d.\nDefinition CHANNEL_WRAP_TO : Z := %d." %
+          (int(first.group(1), 16), int(step.group(1), 16), int(step.group(2), 16)), "channel number allocation", TURN)
+
+    def shape(fn, attrs, method, cls="Request"):
+        _, _, body = find_fn(src, fn, "TurnClient")
+        flat = re.sub(r"\s+", "", body)
+        pos = 0
+        for a in attrs:
+            k = flat.find(a, pos)
+            if k < 0:
+                raise Untranslatable("%s: attribute %s missing or out of order" % (fn, a))
+            pos = k + 1
+        if "method:StunMethod::%s" % method not in flat or "class:StunClass::%s" % cls not in flat:
+            raise Untranslatable("%s: method/class changed" % fn)
+        return flat
+    U, R, N = "StunAttribute::Username(auth.username.clone())", "StunAttribute::Realm(auth.realm.clone())", "StunAttribute::Nonce(auth.nonce.clone())"
+    f1 = shape("create_permission_packet", [U, R, N, "StunAttribute::XorPeerAddress(peer)"], "CreatePermission")
+    f2 = shape("create_channel_bind_packet", ["StunAttribute::ChannelNumber(channel_number)", "StunAttribute::XorPeerAddress(peer)", U, R, N], "ChannelBind")
+    for f in (f1, f2):
+        if "msg.encode(Some(&auth.key),true)" not in f:
+            raise Untranslatable("TURN request builder no longer encodes with the long-term key and fingerprint")
+    f3 = shape("send_indication", ["StunAttribute::XorPeerAddress(peer)", "StunAttribute::Data(data.to_vec())"], "Send", "Indication")
+    for k, a in enumerate([U, R, N]):
+        if ".insert(%d,%s)" % (k, a) not in f3:
+            raise Untranslatable("send_indication: authenticated variant changed")
+    if "authenticated_msg.encode(Some(&auth.key),true)" not in f3 or "msg.encode(None,false)" not in f3:
+        raise Untranslatable("send_indication: encode calls changed")
+    _, _, scd = find_fn(src, "send_channel_data", "TurnClient")
+    fl = re.sub(r"\s+", "", scd)
+    if "packet.extend_from_slice(&channel.to_be_bytes());packet.extend_from_slice(&(data.len()asu16).to_be_bytes());packet.extend_from_slice(data);self.send(&packet).await" not in fl:
+        raise Untranslatable("send_channel_data: framing changed")
+    _, _, snd = find_fn(src, "send", "TurnClient")
+    fl = re.sub(r"\s+", "", snd)
+    if "socket.send_to(data,*server).await?;" not in fl or \
+       "frame.extend_from_slice(&(data.len()asu16).to_be_bytes());frame.extend_from_slice(data);write.lock().await.write_all(&frame).await?;" not in fl:
+        raise Untranslatable("TurnClient::send: UDP / TCP framing changed")
+    m.raw("Definition TURN_TCP_PREFIX_LEN : Z := 2.", "TurnClient::send TCP framing (16-bit length prefix)", TURN)
     _, _, md = find_fn(src, "md5_digest")
     if "Md5::new()" not in md:
         raise Untranslatable("md5_digest does not use Md5")
